@@ -493,10 +493,13 @@ impl SwiftField for Field32AmountCD {
                 let field = Field32D::parse(value)?;
                 Ok(Field32AmountCD::D(field))
             }
-            _ => {
-                // No variant specified, fall back to default parse behavior
+            None => {
+                // No option letter given: the option is inferred from the content
                 Self::parse(value)
             }
+            Some(other) => Err(ParseError::InvalidFormat {
+                message: format!("Field 32 has no option {}", other),
+            }),
         }
     }
 
